@@ -242,13 +242,10 @@ def run(chk, prog):
             'the loop condition tests peek_evaluation_stack().is::<Tag>() before each pop (checked below)',
         'Story::pop_choice_string_and_tags|peek':
             'the same loop condition tests !evaluation_stack.is_empty() first (short-circuit &&)',
-        'Story::perform_logic_and_flow_control|Value::get_value|generated_list_value':
-            'generated_list_value is assigned Some(..) on the is_none() path immediately before (local reassignment the '
-            'guard analysis does not follow)',
     }
     lt_ = Tracer(prog, transparent=lambda cs: True, use_summaries=False)
     SRC_ = ('StoryState::pop_evaluation_stack', 'StoryState::pop_evaluation_stack_multiple', 'StoryState::peek_evaluation_stack')
-    from analysis.panics import guard_dominated
+    from analysis.panics import guard_dominated, guarded_by_reassignment
     n_tainted, used_exc = 0, set()
     for fn in sorted(prog.fns.values(), key=lambda f: f.p):
         if fn.crate != 'bladeink':
@@ -271,21 +268,16 @@ def run(chk, prog):
             if not src or not down:
                 continue
             n_tainted += 1
-            if guard_dominated(prog, fn, s_, tr):
-                chk.ok(RE, chk.key(RE, root.short, down[0], 'guarded#%d' % n_tainted), 'tested before use', fn.loc(s_['bb']))
+            if guard_dominated(prog, fn, s_, tr) or guarded_by_reassignment(prog, fn, s_, tr):
+                chk.ok(RE, chk.key(RE, root.short, down[0], 'guarded#%d' % n_tainted), 'tested (or assigned Some) before use',
+                       fn.loc(s_['bb']))
                 continue
-            lname = None
-            a0 = s_['term']['args'][0]
-            if a0['k'] in ('copy', 'move'):
-                from rules.c08 import named_source
-                lname = fn.local_name(named_source(fn, a0['pl']['l']))
             ek = '%s|%s' % (root.short, down[0])
-            ek2 = ek + '|' + (lname or '')
-            exc = POPPED_EXCEPTIONS.get(ek2) or POPPED_EXCEPTIONS.get(ek)
+            exc = POPPED_EXCEPTIONS.get(ek)
             i_ = ordn.get(ek, 0)
             ordn[ek] = i_ + 1
             if exc:
-                used_exc.add(ek2 if ek2 in POPPED_EXCEPTIONS else ek)
+                used_exc.add(ek)
                 chk.ok(RE, chk.key(RE, root.short, down[0], 'exception#%d' % i_), 'confirmed exception: ' + exc, fn.loc(s_['bb']))
             else:
                 chk.fail(RE, chk.key(RE, root.short, down[0], '#%d' % i_),
